@@ -320,17 +320,220 @@ func family(n int) *core.Family {
 	}
 }
 
+// ---------------------------------------------------------------------------
+// larger named shapes: beyond 4 nodes the space of all graphs cannot be enumerated, but
+// the shapes on which a traversal can go wrong are few and parametric: long chains
+// (a depth limit, a fixed-size work list), a back edge into any position of a chain
+// (cycles of every length), wide parent sets (set-representation thresholds), layered
+// diamonds (exponentially many paths: the visited set), an absent intermediate entity.
+// Every member of each parametric class up to the stated size is run, with every
+// ordered pair of nodes queried on the three copies of the hierarchy logic.
+
+type shapeGraph struct {
+	desc    string
+	n       int
+	present []bool
+	adj     [][]int
+}
+
+func shapeUID(j int) types.EntityUID {
+	return types.NewEntityUID(typeNames[j%2], types.String(fmt.Sprintf("s%d", j)))
+}
+
+func newShape(desc string, n int) *shapeGraph {
+	g := &shapeGraph{desc: desc, n: n, present: make([]bool, n), adj: make([][]int, n)}
+	for j := range g.present {
+		g.present[j] = true
+	}
+	return g
+}
+
+func shapes(maxChain, maxFan, maxLayers int) []*shapeGraph {
+	var out []*shapeGraph
+	for k := 2; k <= maxChain; k++ {
+		// back = -1: plain chain; otherwise an edge from the last node back to node `back`
+		for back := -1; back < k; back++ {
+			// absent = -1: all present; otherwise that intermediate node has no store entry
+			for _, absent := range []int{-1, k / 2} {
+				if absent == 0 || absent == k-1 && back >= 0 {
+					continue
+				}
+				g := newShape(fmt.Sprintf("chain of %d, back edge to %d, absent %d", k, back, absent), k)
+				for j := 0; j+1 < k; j++ {
+					g.adj[j] = append(g.adj[j], j+1)
+				}
+				if back >= 0 {
+					g.adj[k-1] = append(g.adj[k-1], back)
+				}
+				if absent > 0 {
+					g.present[absent] = false
+				}
+				out = append(out, g)
+			}
+		}
+	}
+	for k := 1; k <= maxFan; k++ {
+		// node 0 has k parents 1..k; parent `via` has the parent k+1 (the top)
+		for _, via := range []int{1, (k + 1) / 2, k} {
+			g := newShape(fmt.Sprintf("fan of %d parents, top reached through parent %d", k, via), k+2)
+			for j := 1; j <= k; j++ {
+				g.adj[0] = append(g.adj[0], j)
+			}
+			g.adj[via] = append(g.adj[via], k+1)
+			out = append(out, g)
+		}
+	}
+	for d := 2; d <= maxLayers; d++ {
+		// layers of width 2; every node has both nodes of the next layer as parents; optionally a top
+		for _, cyc := range []bool{false, true} {
+			g := newShape(fmt.Sprintf("layered diamonds, %d layers of width 2, cycle back %v", d, cyc), 2*d+1)
+			for l := 0; l+1 < d; l++ {
+				for w := 0; w < 2; w++ {
+					g.adj[2*l+w] = append(g.adj[2*l+w], 2*(l+1), 2*(l+1)+1)
+				}
+			}
+			g.adj[2*(d-1)] = append(g.adj[2*(d-1)], 2*d)
+			if cyc {
+				g.adj[2*(d-1)+1] = append(g.adj[2*(d-1)+1], 0)
+			}
+			out = append(out, g)
+		}
+	}
+	return out
+}
+
+func (g *shapeGraph) reach() [][]bool {
+	r := make([][]bool, g.n)
+	for a := 0; a < g.n; a++ {
+		r[a] = make([]bool, g.n)
+		r[a][a] = true
+		stack := []int{a}
+		for len(stack) > 0 {
+			x := stack[len(stack)-1]
+			stack = stack[:len(stack)-1]
+			if !g.present[x] {
+				continue
+			}
+			for _, y := range g.adj[x] {
+				if !r[a][y] {
+					r[a][y] = true
+					stack = append(stack, y)
+				}
+			}
+		}
+	}
+	return r
+}
+
+func shapeFamily(maxChain, maxFan, maxLayers int) *core.Family {
+	sh := shapes(maxChain, maxFan, maxLayers)
+	return &core.Family{
+		Name: "larger-shapes",
+		Desc: fmt.Sprintf("%d parametric graphs beyond 4 nodes: every chain of 2..%d nodes x every back edge (cycles of every length) x an absent intermediate; fans of 1..%d parents; layered diamonds of 2..%d layers with and without a cycle; every ordered pair of nodes and a never-present target, on Eval in / in-set / is-in, Authorize scope in and PartialPolicy scope", len(sh), maxChain, maxFan, maxLayers),
+		N:    int64(len(sh)),
+		Run: func(t *core.T, i int64) {
+			g := sh[i]
+			r := g.reach()
+			em := types.EntityMap{}
+			for j := 0; j < g.n; j++ {
+				if !g.present[j] {
+					continue
+				}
+				var ps []types.EntityUID
+				for _, k := range g.adj[j] {
+					ps = append(ps, shapeUID(k))
+				}
+				em[shapeUID(j)] = types.Entity{UID: shapeUID(j), Parents: types.NewEntityUIDSet(ps...)}
+			}
+			getter := &countingGetter{m: em, limit: 500 + 40*g.n*g.n}
+			guard := func(sig string, in func() string, f func()) {
+				getter.calls = 0
+				defer func() {
+					if x := recover(); x != nil {
+						if _, ok := x.(runaway); ok {
+							t.Fail("non-termination:"+sig, in(), "terminates", fmt.Sprintf("more than %d EntityGetter.Get calls in one evaluation", getter.limit))
+							return
+						}
+						panic(x)
+					}
+				}()
+				f()
+			}
+			for a := 0; a < g.n; a++ {
+				ua := shapeUID(a)
+				env := eval.Env{Entities: getter, Principal: ua, Action: ua, Resource: ua, Context: types.Record{}}
+				req := cedar.Request{Principal: ua, Action: ua, Resource: ua}
+				for b := 0; b <= g.n; b++ {
+					ub := never
+					want := false
+					if b < g.n {
+						ub = shapeUID(b)
+						want = r[a][b]
+					}
+					in := func() string { return fmt.Sprintf("%s: %s in %s", g.desc, ua, ub) }
+					guard("eval-in", in, func() {
+						v, err := eval.Eval(xast.Value(ua).In(xast.Value(ub)).AsIsNode(), env)
+						if err != nil || v != types.Boolean(want) {
+							t.Fail("eval-in:wrong", in(), fmt.Sprint(want), fmt.Sprintf("%v, %v", v, err))
+						}
+					})
+					guard("eval-in-set", in, func() {
+						v, err := eval.Eval(xast.Value(ua).In(xast.Value(types.NewSet(never, ub))).AsIsNode(), env)
+						if err != nil || v != types.Boolean(want) {
+							t.Fail("eval-in-set:wrong", in(), fmt.Sprint(want), fmt.Sprintf("%v, %v", v, err))
+						}
+					})
+					wantT := want && ua.Type == "A"
+					guard("eval-is-in", in, func() {
+						v, err := eval.Eval(xast.Value(ua).IsIn("A", xast.Value(ub)).AsIsNode(), env)
+						if err != nil || v != types.Boolean(wantT) {
+							t.Fail("eval-is-in:wrong", in(), fmt.Sprint(wantT), fmt.Sprintf("%v, %v", v, err))
+						}
+					})
+					pa := xast.Permit().PrincipalIn(ub)
+					guard("authorize-principal-in", in, func() {
+						dec, diag := cedar.Authorize(one(pa), getter, req)
+						if bool(dec) != want || len(diag.Errors) != 0 {
+							t.Fail("authorize-principal-in:wrong", in(), fmt.Sprint(want), fmt.Sprintf("%v %v", dec, diag.Errors))
+						}
+					})
+					ps := xast.Permit().ActionInSet(never, ub)
+					guard("authorize-action-in-set", in, func() {
+						dec, diag := cedar.Authorize(one(ps), getter, req)
+						if bool(dec) != want || len(diag.Errors) != 0 {
+							t.Fail("authorize-action-in-set:wrong", in(), fmt.Sprint(want), fmt.Sprintf("%v %v", dec, diag.Errors))
+						}
+					})
+					guard("partial-principal-in", in, func() {
+						_, keep := eval.PartialPolicy(env, pa)
+						if keep != want {
+							t.Fail("partial-principal-in:wrong", in(), fmt.Sprint(want), fmt.Sprint(keep))
+						}
+					})
+				}
+			}
+			t.Nontrivial()
+			t.AddStates(1)
+			t.AddTrans(int64(g.n * (g.n + 1) * 6))
+			t.Sample(g.desc)
+		},
+	}
+}
+
 func Check() *core.Check {
 	return &core.Check{
 		ID:    "C03",
 		Title: "Entity membership `in` is reflexive-transitive reachability",
 		Rule: "every directed parent graph over n named nodes with every subset of nodes present in the store, every (a,b) pair and every target set, on three copies of the hierarchy logic (evaluator, compiled scope in Authorize, partial-evaluation scope); oracle = Floyd-Warshall reachability over edges whose source is present; " +
 			"a case (store) is non-trivial if some pair a!=b is reachable; termination is decided by bounding EntityGetter.Get calls",
-		Assumptions: []string{"graphs with more than 4 nodes are outside the bound (the quantifier's random larger graphs would be sampling and are not done)"},
+		Assumptions: []string{"beyond 4 nodes only the parametric shape classes of family larger-shapes are covered (every member up to the stated size); the quantifier's random larger graphs would be sampling and are not done"},
 		Families: func(tier string) []*core.Family {
 			fams := []*core.Family{family(1), family(2), family(3)}
 			f4 := family(4)
-			return append(fams, f4)
+			if tier == "thorough" {
+				return append(fams, f4, shapeFamily(24, 40, 8))
+			}
+			return append(fams, f4, shapeFamily(12, 20, 6))
 		},
 	}
 }
